@@ -20,6 +20,7 @@ import io
 import itertools
 import json
 import pickle
+import sys
 
 import common as C
 import pyexpr as P
@@ -837,8 +838,17 @@ def _nontrivial(case, obs):
     return obs["ending"] != "waiting" or len(obs["delivered"]) != len(case["sends"])
 
 
+def _quiet_unraisable(unraisable):
+    # pickle's C unpickler reports "deallocated bytearray object has exported buffers" through the unraisable
+    # hook when it is fed a truncated/garbled stream; that is noise of the garbage payloads, not a result.
+    if isinstance(unraisable.exc_value, SystemError) and "exported buffers" in str(unraisable.exc_value):
+        return
+    sys.__unraisablehook__(unraisable)
+
+
 def run(ctx, model=True):
     C.assert_repo_import()
+    sys.unraisablehook = _quiet_unraisable
     res = C.Result(
         rule="cases = corpus + every raw frame made of <=3 (thorough 4) tokens from {SP, sb, start, stop, 0xff, valid pickle, G} for dispatcher "
         "prefix b''/b'sb' strict/non-strict + random scenarios (1-3 publishers with prefixes incl. near-misses sb/sbx/xsb/not_sb, 0-13 sends, "
